@@ -1,5 +1,5 @@
 """C14  Listing runs nothing and agrees exactly with what a run would execute."""
-from lib.facts import norm, origins
+from lib.facts import norm, origins, place_root_fields
 from lib import tables
 
 INLINE = True      # crate-local helpers the rules do not know by name are inlined into their callers (lib/inline.py)
@@ -644,7 +644,7 @@ def cli_action_table(ctx, rule, prog, crate):
     if not ctx.anchor(rule, "Divan::config_with_args", 1 if b else 0, 1):
         return
     ctx.saw(b)
-    asg = [(bi, s) for bi, si, s in b.stmts() if s["k"] == "assign" and s["p"]["l"] == 1 and place_fields(s["p"]) == ("action",)]
+    asg = [(bi, s) for bi, si, s in b.stmts() if s["k"] == "assign" and s["p"]["proj"] and place_root_fields(b, s["p"]) == (1, ("action",))]
     if not ctx.check(len(asg) == 1 and asg[0][1]["rv"]["k"] == "use" and asg[0][1]["rv"]["o"]["k"] in ("move", "copy"), rule, ["cli-action", "one-store"],
                      "stores into self.action in config_with_args: %d" % len(asg), b.where(0)):
         return
